@@ -2,23 +2,24 @@
 """mutrun.py <mutation-name> <check> [<check>...]: apply a named source mutation to /repo, run the checks, revert.
 Mutations are (file, old, new) text replacements defined in tools/mutations.py. Also accepts a path to a .diff."""
 import subprocess, sys, os
+REPO = os.environ.get('VERIF_REPO', '/repo')
 sys.path.insert(0, os.path.dirname(__file__))
 from mutations import MUT
 name = sys.argv[1]
 checks = sys.argv[2:]
 def sh(c, **k): return subprocess.run(c, shell=True, text=True, **k)
-assert sh('git -C /repo status --porcelain --untracked-files=no', capture_output=True).stdout.strip() == '', '/repo dirty'
+assert sh('git -C %s status --porcelain --untracked-files=no' % REPO, capture_output=True).stdout.strip() == '', '/repo dirty'
 try:
     if name.endswith('.diff') or name.endswith('.patch'):
-        assert sh('git -C /repo apply ' + name).returncode == 0
+        assert sh('git -C %s apply %s' % (REPO, name)).returncode == 0
     else:
         for f, old, new in MUT[name]:
-            p = os.path.join('/repo', f); s = open(p).read()
+            p = os.path.join(REPO, f); s = open(p).read()
             assert s.count(old) == 1, (name, f, s.count(old))
             open(p, 'w').write(s.replace(old, new))
     if os.environ.get('MUT_TESTS'):
-        r = sh('cd /repo/grpcgcp && GOFLAGS=-mod=mod go test -count=1 ./... 2>&1 | tail -5')
+        r = sh('cd %s/grpcgcp && GOFLAGS=-mod=mod go test -count=1 ./... 2>&1 | tail -5' % REPO)
     for c in checks:
         r = sh('/verif/vcheck %s --no-evidence 2>&1 | grep -E "^(VIOLATION|KNOWN|C[0-9]+ tier|CHECK-ERROR|---)" | cut -c1-220 | head -12' % c)
 finally:
-    sh('git -C /repo checkout -- . ')
+    sh('git -C %s checkout -- . ' % REPO)
